@@ -815,6 +815,18 @@ fn compare(v: &TensorView<'_, i32>, r: &NArr) -> Option<(&'static str, String)> 
     None
 }
 
+/// `compare` with panics while reading the subject's result turned into a mismatch
+fn compare_caught(v: &TensorView<'_, i32>, r: &NArr) -> Option<(&'static str, String)> {
+    match vp_core::catch(|| compare(v, r)) {
+        Ok(x) => x,
+        Err(p) => Some(("wrong elements", format!("panic while reading the result: {p}"))),
+    }
+}
+
+fn describe(v: &TensorView<'_, i32>) -> String {
+    vp_core::catch(|| format!("shape {:?} elements {:?}", v.shape(), v.to_vec())).unwrap_or_else(|p| format!("shape {:?}, elements unreadable (panic: {p})", v.shape()))
+}
+
 enum Out<'a> {
     View(TensorView<'a, i32>),
     Owned(Tensor<i32>),
@@ -904,7 +916,7 @@ fn apply(v: &TensorView<'_, i32>, r: &NArr, act: &Act, st: &mut St, k: &mut dyn 
             st.fail(
                 format!("{}: succeeds although the model rejects the operation ({why}) [{feat}]", act.name()),
                 act.to_json(),
-                format!("input shape {:?}; {:?} returned shape {:?} elements {:?}", r.shape, act, ov.shape(), ov.to_vec()),
+                format!("input shape {:?}; {:?} returned {}", r.shape, act, describe(&ov)),
             );
         }
         (Ok(out), Ok(mut exp)) => {
@@ -922,7 +934,7 @@ fn apply(v: &TensorView<'_, i32>, r: &NArr, act: &Act, st: &mut St, k: &mut dyn 
                     return;
                 }
             }
-            if let Some((what, detail)) = compare(&ov, &exp) {
+            if let Some((what, detail)) = compare_caught(&ov, &exp) {
                 st.vcnt[id].violations += 1;
                 let feat = act.feature(r, if what == "wrong elements" { 2 } else { 1 });
                 let own_path = matches!(act, Act::SliceCopy(_)) && feat.contains("not valid for slice()");
@@ -1818,7 +1830,7 @@ fn owned_step(ost: &mut OSt, r: &NArr, act: &OAct, st: &mut St) -> Option<(Tenso
             let what = if note.as_deref().unwrap_or("").starts_with("CHANGED-ON-ERR") { "returns Err but changes the tensor" } else { "succeeds although the model rejects the operation" };
             let case = owned_case(ost, act);
             let sig = format!("{}: {what} ({why})", act.name());
-            let detail = format!("model shape {:?}; {:?} -> shape {:?} elements {:?} {note:?}", r.shape, act, t.shape(), t.to_vec());
+            let detail = format!("model shape {:?}; {:?} -> {} {note:?}", r.shape, act, describe(&t.view()));
             owned_fail(st, sig, case, detail);
             None
         }
@@ -1842,7 +1854,7 @@ fn owned_step(ost: &mut OSt, r: &NArr, act: &OAct, st: &mut St) -> Option<(Tenso
                 }
             }
             if bad.is_none() {
-                if let Some((what, detail)) = compare(&tv, &exp) {
+                if let Some((what, detail)) = compare_caught(&tv, &exp) {
                     let cls = if in_strides.is_empty() || rten_tensor_contig(&r.shape, &in_strides) { "contiguous" } else { "non-contiguous" };
                     bad = Some((format!("{what} [input {cls}]"), format!("{detail}; model shape {:?} elements {:?}", exp.shape, exp.data)));
                 }
@@ -2179,7 +2191,7 @@ fn run_job_inner(job: &Job, p: &Params) -> JobOut {
             start.with_view(|v, base| {
                 st.base = base;
                 // the start itself must match the model
-                if let Some((what, detail)) = compare(v, &start.r) {
+                if let Some((what, detail)) = compare_caught(v, &start.r) {
                     st.fail(format!("start tensor: {what} [{}]", spec.variant), json!({"op": "leaf:start"}), detail);
                     return;
                 }
@@ -2216,7 +2228,7 @@ fn run_job_inner(job: &Job, p: &Params) -> JobOut {
             // root check
             let ok = start.with_view(|v, base| {
                 out.st.base = base;
-                match compare(v, &start.r) {
+                match compare_caught(v, &start.r) {
                     Some((what, detail)) => {
                         out.st.fail(format!("start tensor: {what} [{}]", spec.variant), json!({"op": "leaf:start"}), detail);
                         false
@@ -2314,7 +2326,7 @@ fn replay(ctx: Ctx) -> ! {
             let stm = &mut st;
             start.with_view(|v, base| {
                 stm.base = base;
-                if let Some((what, detail)) = compare(v, &start.r) {
+                if let Some((what, detail)) = compare_caught(v, &start.r) {
                     stm.fail(format!("start tensor: {what} [{}]", spec.variant), json!({"op": "leaf:start"}), detail);
                     return;
                 }
@@ -2366,7 +2378,14 @@ pub fn run(ctx: Ctx) -> ! {
     order.sort_by_key(|&i| match &jobs[i] {
         Job::Range => (0, 0, i),
         // non-empty starts first (smallest first), then empty ones
-        Job::Chains(s) | Job::Full(s, ..) | Job::Owned(s) => (if prod(&s.shape) == 0 { 500 + s.shape.len() } else { prod(&s.shape) }, s.shape.len(), i),
+        Job::Chains(s) | Job::Full(s, ..) | Job::Owned(s) => {
+            // the "spare" variant holds only the first k entries along its axis
+            let mut sh = s.shape.clone();
+            if s.variant == "spare" && s.axis < sh.len() {
+                sh[s.axis] = s.k;
+            }
+            (if prod(&sh) == 0 { 500 + sh.len() } else { prod(&sh) }, sh.len(), i)
+        }
         Job::Big(s) => (1000 + prod(&s.shape), s.shape.len(), i),
     });
     let mut cands: Vec<(usize, usize, &String, &Json, &String, u64)> = Vec::new();
